@@ -152,6 +152,8 @@ def crc_calculate(I, fi, args, kw, bound_cls):
     if data.kind == "bytes":
         # bitarray API would raise; the repository never does this
         return I.opaque("crc engine fed with bytes")
+    if any(isinstance(x, OB) for x in data.items):
+        return ABits([OB("crc over unfollowed bits") for _ in range(w)], "ba")
     key = ("crc", w, cfg.fields["polynomial"], tuple(I.simp_bits(data.items)))
     return ABits([I.atom_form(("fn", key, w - 1 - j)) for j in range(w)], "ba")
 
@@ -204,6 +206,8 @@ def code_check(I, fi, args, kw, bound_cls):
     s = syndrome(I, ci, v)
     if all(isinstance(x, F) and x.is_const for x in s):
         return not any(x.c for x in s)
+    if any(isinstance(x, OB) for x in s):
+        return I.opaque("codeword test of a word with unfollowed bits")
     return ACond("codeword", ci.qualname, tuple(s))
 
 
@@ -217,6 +221,14 @@ def code_correct(I, fi, args, kw, bound_cls):
         return (True, v)  # provably a codeword: left unchanged (C06 use/correct)
     if all(isinstance(x, F) and x.is_const for x in s) and getattr(I, "interpret_constant_syndromes", False):
         return NotImplemented  # a known non-zero syndrome: the REAL repair code is interpreted (which bit it inverts, or gives up)
+    if any(isinstance(x, OB) for x in s) or any(isinstance(x, OB) for x in bits):
+        # a word holding bits the analysis could not follow: whatever the repair does, the result is just as unknown (it must not
+        # be given a NAME — an uninterpreted function of unknown bits would look like a legitimate symbolic value downstream)
+        fixed = ABits([OB("repair of a word with unfollowed bits") for _ in bits], v.kind if isinstance(v, ABits) else "np")
+        if isinstance(v, ABits):
+            v.items[:] = fixed.items
+            return (I.opaque("repair verdict of a word with unfollowed bits"), v)
+        return (I.opaque("repair verdict of a word with unfollowed bits"), fixed)
     key = ("repair", ci.qualname, tuple(I.simp_bits(bits)))
     fixed = ABits([I.atom_form(("fn", key, j)) for j in range(len(bits))], v.kind if isinstance(v, ABits) else "np")
     if isinstance(v, ABits):
